@@ -118,7 +118,17 @@ impl RePrinter {
             Re::Star(a) => format!("{}*", self.p(a, 2)),
             Re::Plus(a) => format!("{}+", self.p(a, 2)),
             Re::Opt(a) => format!("{}?", self.p(a, 2)),
-            Re::Cat(a, b) => format!("{} {}", self.p(a, 1), self.p(b, 2)),
+            Re::Cat(a, b) => {
+                let l = self.p(a, 1);
+                let r = self.p(b, 2);
+                // `$ $` is the token sequence of a built-in class name (`$$name`): keep two
+                // end-of-input markers apart
+                if l.ends_with('$') && r.starts_with('$') {
+                    format!("{} ({})", l, r)
+                } else {
+                    format!("{} {}", l, r)
+                }
+            }
             Re::Alt(a, b) => format!("{} | {}", self.p(a, 0), self.p(b, 1)),
             Re::Diff(a, b) => format!("{} # {}", self.p(a, 3), self.p(b, 4)),
         };
